@@ -1,4 +1,4 @@
-HOOK_COMMITS = []
+HOOK_COMMITS = ["193d56e"]
 NOTES = ("Model-based verification with explicit TLA+ specifications (spec/*.tla). TLC decides each property on the "
          "specification (exhaustive small scope + seeded simulation) and emits cases/behaviours that Go drivers "
          "(harness/, built with -tags verif against /repo's working tree) replay into the real seq-db code; recorded "
@@ -43,5 +43,10 @@ CHECKS = {
         "text": "ProjectCases.tla defines the projection at the level of top-level field-name sets (with two sanity invariants) and TLC enumerates every corpus x field list x mode of the scope; the driver instantiates field values from a palette of JSON shapes and compares the store's field-filtered Fetch and the proxy's fields pipe (also: same ids/order as without the pipe, untouched bytes without a pipe) structurally with the reference.",
         "note": "Trusted: TLC; value fidelity is sampled from a 22-entry JSON palette rotated by the seed (class-level exhaustive over field-name sets, sampled inside each class); numbers compared by value.",
         "technique": "TLA+ reference operator, exhaustive TLC case enumeration replayed through the store fetch filter and the proxy fields pipe",
+    },
+    "C01": {
+        "text": "WritePath.tla models the active fraction's write path at the grain of its file operations (mutex, docs write, fsync, meta write with ext1/ext2, fsync, unlock, ack), crashes that keep the synced prefix plus any prefix of the unsynced suffix, and Replay; TLC checks NoForeignBytes, AckedDurable, AlwaysComesUp and the action property AckOnlyDurable exhaustively. Every crash/restart/ingest history of the scope is replayed on a real store (crash images cut byte-exactly from what the real write path wrote), and concurrent real executions recorded through the verif hooks are validated event by event against WritePathTrace.tla (with a corrupted-trace self-test).",
+        "note": "Trusted: TLC, the crash model (a crash keeps the fsynced prefix and an arbitrary prefix of later writes of each file), the kernel's fsync. Scope: 3 bulks (thorough 4 in the design check), <=2 (thorough 3) crashes, one active fraction; torn lengths sampled from 6 byte classes per case. Two defects of the pinned tree were found this way and repaired (fix: 9622524).",
+        "technique": "TLA+ state machine of the write path model-checked by TLC; behaviours replayed as crash/restart histories on the real store; hook-recorded traces validated against the spec",
     },
 }
